@@ -716,6 +716,10 @@ def c14_subsets(rep, tier, seed, rows):
     K.run_model(os.path.join(d, "cases.jsonl"), os.path.join(d, "model.jsonl"))
     srows = [(json.loads(a), json.loads(b), json.loads(c)) for a, b, c in zip(open(os.path.join(d, "cases.jsonl")), open(os.path.join(d, "impl.jsonl")), open(os.path.join(d, "model.jsonl")))]
     K.correspondence(rep, srows, "flag subsets", lambda c, i, m: len(i.get("run", {}).get("diags", [])) >= 1, known=K.load_known(rep.prop))
+    # every subset through the binary as well (`main` resolves the two flags before `detect_validators` sees them): the rows of
+    # the first rule-rich case - 128 subsets x {--disable, --enable}, all seven validators disabled / enabled included
+    first = srows[0][0]["meta"].get("base") if srows else None
+    cli_correspondence(rep, [r for r in srows if r[0]["meta"].get("base") == first], "flag subsets", 300, subs=("validate",), known=K.load_known(rep.prop))
     # the filter law on the implementation alone (disable_removes_exactly_diags / enable_keeps_exactly_diags)
     base_diags = {}
     for case, impl, model in srows:
